@@ -7,6 +7,7 @@ mod inv;
 mod c01;
 mod c02;
 mod c06;
+mod c07;
 mod c08;
 mod c12;
 mod c14;
@@ -130,6 +131,7 @@ fn main() {
                         "C12" => c12::replay(&ctx, &case),
                         "C06" => c06::replay(&ctx, &case),
                         "C14" => c14::replay(&ctx, &case),
+                        "C07" => c07::replay(&ctx, &case),
                         "C18" => c18::replay(&ctx, &case),
                         "C19" => c19::replay(&ctx, &case),
                         _ => usage(),
@@ -148,6 +150,7 @@ fn main() {
                         "C12" => c12::run(&ctx),
                         "C06" => c06::run(&ctx),
                         "C14" => c14::run(&ctx),
+                        "C07" => c07::run(&ctx),
                         "C18" => c18::run(&ctx),
                         "C19" => c19::run(&ctx),
                         _ => usage(),
